@@ -28,7 +28,7 @@ structure CSibs where
 def cstep (S : Schema) (cx : Cx) (fixed : Bool) (x : SRef) (c : CSibs) (o : Op) : CSibs :=
   ⟨step S cx fixed c.sibs o,
    match o with
-   | .insert n => if n.sch = some x then c.lyds.insert keyGt (block x c.sibs.nodes).head? n else c.lyds
+   | .insert n => if n.sch = some x then c.lyds.insert keyGt (block x c.sibs.nodes) n else c.lyds
    | .unlink id =>
      match splitAtId id c.sibs.nodes with
      | some (a, n, _) => if n.sch = some x then c.lyds.unlink (block x a).length else c.lyds
